@@ -136,7 +136,11 @@ def orm(case):
         order = ORDERS[case.get("order", 0) % 6]
         text = generate(classes, order)
         out["deterministic"] = text == generate(classes, order) and text == generate(classes, order, twice=True)
-        out["same_for_other_order"] = None
+        # the generated module must depend on this model's modules only (generation is a function of the model, not of what
+        # the process generated before)
+        import re
+        foreign = sorted({m for m in re.findall(r"^import ((?:cm|cms)_\w+)", text, flags=re.M) if mid not in m})
+        out["foreign_imports"] = foreign
         gen = load("orm_" + mid, text)
         gen.Base.registry.configure()
         engine = sqlalchemy.create_engine("sqlite://")
